@@ -338,8 +338,8 @@ func c14PDesc(ps []c14Part) *ring.PartitionRingDesc {
 	return d
 }
 
-// encPDesc is the canonical line encoding of a PartitionRingDesc shared with lean/Model/C14.lean.
-func encPDesc(d *ring.PartitionRingDesc) string { return encPDescOpt(d, false) }
+// c14EncPDesc is the canonical line encoding of a PartitionRingDesc shared with lean/Model/C14.lean.
+func c14EncPDesc(d *ring.PartitionRingDesc) string { return encPDescOpt(d, false) }
 
 // encPDescOpt with elide=true writes token lists longer than 8 as "*<count>" (histories never look at token values).
 func encPDescOpt(d *ring.PartitionRingDesc, elide bool) string {
@@ -393,7 +393,7 @@ func c14ActiveOnly(d *ring.PartitionRingDesc) ring.PartitionRingDesc {
 }
 
 func c14PartRing(e *env, d *ring.PartitionRingDesc, pids []int32, keys []uint32, tile bool) {
-	s := encPDesc(d)
+	s := c14EncPDesc(d)
 	full, err := ring.NewPartitionRing(*d)
 	if err != nil {
 		panic(err)
